@@ -1,4 +1,5 @@
 import PoryProofs.PorySelectMore
+import PoryProofs.EmitIds
 /-
 C12 (statement position): "Compiling a program equals compiling the same program with every poryswitch
 replaced by the content of the case that matches the `-s` value, or of `_` when none matches."
@@ -24,7 +25,8 @@ DEFINITIONS (PoryProofs/PorySelect.lean)
 * `SameUpToIds c c'' c' stmts' imp' stmts imp` — `∃ R`, both correspondences ORDER PRESERVING (`Mono`: hence
   functional and injective), the identity below the counters of the entry context `c`, relating otherwise only
   ids handed out by the two elaborations (new run: `[c.next…, c''.next…)`, original: `[c.next…, c'.next…)`),
-  with `RelL R stmts' stmts ∧ relImp R imp' imp`.
+  every id below the final counters of the new run having a partner, with
+  `RelL R stmts' stmts ∧ relImp R imp' imp`.
 
 PROVED
 * `elab_poryswitch_selected` (main): `CtxWF c` (the stacks name scope ids below `c.nextSid` — true of every
@@ -32,9 +34,10 @@ PROVED
   `selectB env b = some b'` and, when `ContLast b'`, `elabE env sn c b' = .ok (stmts', imp', c'')` with
   `SameUpToIds …`, the same stacks / constants, and `c''.nextSid ≤ c'.nextSid`, `c''.nextCmdId ≤ c'.nextCmdId`
   (the gaps: the ids the unselected cases consumed).
-* `elab_poryswitch_selected_fn`: the same with renumbering FUNCTIONS: `∃ f g : Nat → Nat`, strictly monotone
-  on the ids related by `R`, the identity below the entry counters, `mapL f g stmts' = stmts` and
-  `mapImp f imp' = imp`.
+* `elab_poryswitch_selected_fn`: the same with renumbering FUNCTIONS: `∃ f g : Nat → Nat`, strictly increasing
+  on all ids below the final counters of the new run (`StrictMonoBelow`), the identity below the entry
+  counters, sending the ids handed out by the new run into those handed out by the original run,
+  `mapL f g stmts' = stmts` and `mapImp f imp' = imp`.
 * `elab_ok_contLast`: `elabE env sn c b' = .ok _ → ContLast b'` (for EVERY block): so in the main theorem the
   side condition is exactly "`b'` elaborates": `elab_poryswitch_selected_iff`.
 * `elabS_pory`: the per-poryswitch equation (result of a poryswitch statement = entry of the table of ALL
@@ -43,22 +46,35 @@ PROVED
   condition is FALSE. `while { poryswitch (V) { A { continue } } foo }` with `-s V=A` compiles (the `continue`
   is followed by the `}` of its case), while the same program with the poryswitch replaced by the selected
   case, `while { continue foo }`, is rejected: "'continue' must be the last statement in block scope".
-  (Source-level substitution and poryswitch are not interchangeable for a trailing `continue`.)
+  (Source-level substitution and poryswitch are not interchangeable for a trailing `continue`. Checked
+  against the Go binary built from /repo: the first source compiles with `-s V=A`, the second is rejected
+  with exactly this message.)
 * `selected_may_succeed_alone` (the F18 direction): `poryswitch (V) { A: break  _: foo }` with `-s V=B` is
   rejected ("'break' statement outside of any break-able scope", in the case that is NOT selected) although
   the selected program `foo` compiles; `selected_may_succeed_alone_continue`: `while { poryswitch (V) { A:
   continue  B: foo } }` with `-s V=A` is rejected (the `continue` of a `key :` case that is followed by
   another key) although the selected program `while { continue }` compiles.
 
-NOT PROVED (stretch 3, `emit_ids_irrelevant` / `compile_poryswitch_selected`): that `Emit.emitScript` gives the
-same lines for two scripts related by `RelL R` (with the patches renumbered by `R.c`). What is missing is
-the whole simulation through the emitter model: a relation on `Emit.Chunk` / `Emit.WS` (chunk ids, return ids
-and branch structure equal, statements `RelL R`, the `brk` / `cont` association lists keyed by `R.s`-related
-scope ids) preserved by `splitBool`, `createIf`, `splitElifs`, `createWhile`, `createDoWhile`,
-`createSwitch`, `processChunk`, `runWorklist` (`stmtsSize` is id-independent), and then equality of
-`optimizeChunkOrder` (ids never read), `renderStatements` / `renderBranching` (ids read only by
-`patchedArgs`, through `p.1.1 == c.id`, equal for `R.c`-related patches because `R.c` is functional and
-injective) — see `emit_ids_irrelevant_statement` below for the exact statement left open.
+* THROUGH THE EMITTER (stretch 3; PoryProofs/EmitIds.lean):
+  `emit_ids_irrelevant`: for an order-preserving correspondence `R` (`Mono R.c`, `Mono R.s`), two scripts with
+  the same name and scope whose bodies are `RelL R`, emitted with patch lists that correspond under `R.c`
+  (`All2 (relPatch R)`: same argument positions and labels, corresponding command ids), give the same
+  `Emit.emitScript` result — the same lines or the same error; for all options (optimised or not, with or
+  without line markers) and text labels. Proof: a simulation through `PoryModel/Emitter.lean` (`RelWS`:
+  counters equal, chunk tables related chunk by chunk — ids, return ids, branch structure equal, statements
+  `RelL R` —, the `brk` / `cont` lists keyed by `R.s`-related scope ids; preserved by `splitBool`,
+  `createIf`, `splitElifs`, `createWhile`, `createDoWhile`, `createSwitch`, `processChunk`, `runWorklist`;
+  `stmtsSize` is id-independent) and `PoryModel/EmitRender.lean` (`optimizeChunkOrder` never reads a statement;
+  `patchedArgs` reads ids only through `p.1.1 == c.id`, equal on both sides because `R.c` is functional and
+  injective).
+  `rel_addImp`: `addImplicitData` on corresponding implicit data gives the same parser state except for
+  corresponding patch lists.
+  `compile_poryswitch_selected`: for one script body: original and selected body give the same parser state
+  after `addImplicitData` (up to the renumbered patches) and the same `emitScript` result.
+
+Nothing is partial, but note the scope: one script body (`elabE` = the parser on a printed `{ … }` block by
+P1, for the grammar covered by P1), one `emitScript` call; the whole-program corollary (all scripts, the text
+/ movement / mart positions of C12b / C14b, the lexer) is not assembled here.
 -/
 namespace Pory.C12c
 open Pory Pory.Parser Pory.C02P Pory.C10b Pory.SwitchParse Pory.StmtG
@@ -229,6 +245,48 @@ theorem elabS_pory (env : Env) (sn : String) (σ : String → String) (B C : Lis
   rw [elabS, h1, h2]
   simp only [Bool.false_eq_true, if_false]
   rfl
+
+/-! ### through the emitter (stretch 3) -/
+
+theorem all2_refl_of_mem {α : Type} {P : α → α → Prop} : ∀ (l : List α), (∀ a ∈ l, P a a) → All2 P l l
+  | [], _ => trivial
+  | x :: r, h => ⟨h x (List.mem_cons_self ..), all2_refl_of_mem r (fun a ha => h a (List.mem_cons_of_mem _ ha))⟩
+
+/-- **C12c through the emitter, for one script body.** If the body `b` of script `sn` elaborates, and the
+selected body `b'` obeys the `continue` rule, then `b'` elaborates and, from ANY parser state `s` whose
+earlier patches belong to earlier commands,
+* recording the implicit texts / movements (`addImplicitData`, = `addImp`) of the two elaborations gives the
+  same parser state (the same inline texts, movements, label counters, …) except for the patch list, and the
+  two patch lists have the same length (they correspond: same argument positions and labels, renumbered
+  command ids);
+* `Emit.emitScript` gives the SAME RESULT (the same lines, or the same error) for the script with the
+  selected body and its patches as for the script with the original body and its patches — for all emitter
+  options, text labels, script tokens and scopes. -/
+theorem compile_poryswitch_selected {env : Env} {sn : String} {c : Ctx} {b : List SStmt} {stmts : List Stmt}
+    {imp : ImpData} {c' : Ctx} (hwf : CtxWF c) (h : elabE env sn c b = .ok (stmts, imp, c')) :
+    ∃ b', selectB env b = some b' ∧
+      (ContLast b' →
+        ∃ stmts' imp' c'', elabE env sn c b' = .ok (stmts', imp', c'') ∧
+          ∀ (s : PState), (∀ p ∈ s.patches, p.1.1 < c.nextCmdId) →
+            (∃ ps, addImp imp' s = { addImp imp s with patches := ps } ∧
+              ps.length = (addImp imp s).patches.length) ∧
+            ∀ (o : Emit.Opts) (textLabels : List String) (tok : Tok) (scope : TT),
+              Emit.emitScript o (addImp imp' s).patches textLabels
+                  { tok := tok, name := sn, body := stmts', scope := scope } =
+                Emit.emitScript o (addImp imp s).patches textLabels
+                  { tok := tok, name := sn, body := stmts, scope := scope }) := by
+  obtain ⟨b', hsel, hrest⟩ := elab_poryswitch_selected hwf h
+  refine ⟨b', hsel, fun hcl => ?_⟩
+  obtain ⟨stmts', imp', c'', he, hsame, _⟩ := hrest hcl
+  refine ⟨stmts', imp', c'', he, fun s hs => ?_⟩
+  obtain ⟨R, cm, sm, ci, _, _, _, _, _, ra, rm⟩ := hsame
+  have h0 : RelPS R s s :=
+    ⟨s.patches, rfl, all2_refl_of_mem _ (fun p hp => ⟨ci _ (hs p hp), rfl, rfl⟩)⟩
+  obtain ⟨ps, e, hps⟩ := rel_addImp h0 rm
+  refine ⟨⟨ps, e, hps.length_eq⟩, fun o textLabels tok scope => ?_⟩
+  refine emit_ids_irrelevant R cm sm o ?_ textLabels rfl rfl ra
+  rw [e]
+  exact hps
 
 /-! ### the unconditional statement is false; the F18 direction -/
 
@@ -427,9 +485,127 @@ example :
   · simp only [mapL, mapS, mapCmd, cmdS, List.cons.injEq, Stmt.cmd.injEq, Cmd.mk.injEq, Stmt.while_.injEq] at hm
     exact hm.2.2.1.2.1
 
+/-! ### non-vacuity through the emitter:
+`poryswitch (V) { B { while (flag(G)) { y } } A { msgbox("a") while (flag(F)) { x break } } } release`, `-s V=A` -/
+
+def exE : List SStmt :=
+  [pory "V"
+     [.brace (tk .IDENT "B") lb
+        [.while_ (tk .WHILE "while") lp (cond (.flagBare z false "G")) rp lb [.cmd0 (tk .IDENT "y")] rb] rb,
+      .brace (tk .IDENT "A") lb
+        [.cmdI (tk .IDENT "msgbox") lp [.str (tk .STRING "a")] [] rp,
+         .while_ (tk .WHILE "while") lp (cond (.flagBare z false "F")) rp lb
+           [.cmd0 (tk .IDENT "x"), .brk (tk .BREAK "break")] rb] rb],
+   .cmd0 (tk .IDENT "release")]
+
+/-- `msgbox("a") while (flag(F)) { x break } release` -/
+def exEsel : List SStmt :=
+  [.cmdI (tk .IDENT "msgbox") lp [.str (tk .STRING "a")] [] rp,
+   .while_ (tk .WHILE "while") lp (cond (.flagBare z false "F")) rp lb
+     [.cmd0 (tk .IDENT "x"), .brk (tk .BREAK "break")] rb,
+   .cmd0 (tk .IDENT "release")]
+
+#guard (Lexer.lexAll ("poryswitch (V) { B { while (flag(G)) { y } } A { msgbox(\"a\") while (flag(F)) { x break } } } " ++
+    "release }").toList).map (fun t => (t.type, t.lit)) ==
+  (printStmts exE ++ [rb, tk .EOF ""]).map (fun t => (t.type, t.lit))
+
+/-- a parser state without patches -/
+def exS0 : PState := { toks := [], eof := tk .EOF "" }
+
+/-- The original elaboration numbers `msgbox` 1, the loop 1, `x` 2, `release` 3 (case `B` took command id 0 and
+scope id 0) and records the patch `((1, 0), "S_Text_0")`; the selected block numbers them 0, 0, 1, 2 and
+records `((0, 0), "S_Text_0")`; the emitted lines are the same (`compile_poryswitch_selected`). -/
+example :
+    ∃ stmts imp c' stmts' imp' c'',
+      elabE (exEnv "A") "S" {} exE = .ok (stmts, imp, c') ∧ selectB (exEnv "A") exE = some exEsel ∧
+      ContLast exEsel ∧ elabE (exEnv "A") "S" {} exEsel = .ok (stmts', imp', c'') ∧
+      stmts = [.cmd { id := 1, tok := tk .IDENT "msgbox", name := "msgbox", args := [""] },
+               .while_ (tk .WHILE "while") 1 (some flagF) [cmdS 2 "x", .brk (tk .BREAK "break") 1],
+               cmdS 3 "release"] ∧
+      stmts' = [.cmd { id := 0, tok := tk .IDENT "msgbox", name := "msgbox", args := [""] },
+               .while_ (tk .WHILE "while") 0 (some flagF) [cmdS 1 "x", .brk (tk .BREAK "break") 0],
+               cmdS 2 "release"] ∧
+      (addImp imp exS0).patches = [((1, 0), "S_Text_0")] ∧
+      (addImp imp' exS0).patches = [((0, 0), "S_Text_0")] ∧
+      (addImp imp' exS0).inlineTexts = (addImp imp exS0).inlineTexts ∧
+      ∀ (o : Emit.Opts) (textLabels : List String) (tok : Tok) (scope : TT),
+        Emit.emitScript o (addImp imp' exS0).patches textLabels
+            { tok := tok, name := "S", body := stmts', scope := scope } =
+          Emit.emitScript o (addImp imp exS0).patches textLabels
+            { tok := tok, name := "S", body := stmts, scope := scope } := by
+  have h : ∃ stmts imp c', elabE (exEnv "A") "S" {} exE = .ok (stmts, imp, c') ∧
+      stmts = [.cmd { id := 1, tok := tk .IDENT "msgbox", name := "msgbox", args := [""] },
+               .while_ (tk .WHILE "while") 1 (some flagF) [cmdS 2 "x", .brk (tk .BREAK "break") 1],
+               cmdS 3 "release"] ∧
+      (addImp imp exS0).patches = [((1, 0), "S_Text_0")] := ⟨_, _, _, rfl, rfl, by decide⟩
+  obtain ⟨stmts, imp, c', h, hst, hp⟩ := h
+  obtain ⟨b', hsel, hrest⟩ := compile_poryswitch_selected (ctxWF_of_empty rfl rfl) h
+  have hsel2 : selectB (exEnv "A") exE = some exEsel := rfl
+  have hb' : b' = exEsel := by
+    rw [hsel2] at hsel
+    exact (Option.some.inj hsel).symm
+  subst hb'
+  have hcl : ContLast exEsel := by decide
+  obtain ⟨stmts', imp', c'', he, hemit⟩ := hrest hcl
+  have he2 : ∃ imp2 c2, elabE (exEnv "A") "S" {} exEsel =
+      .ok ([.cmd { id := 0, tok := tk .IDENT "msgbox", name := "msgbox", args := [""] },
+               .while_ (tk .WHILE "while") 0 (some flagF) [cmdS 1 "x", .brk (tk .BREAK "break") 0],
+               cmdS 2 "release"], imp2, c2) ∧
+      (addImp imp2 exS0).patches = [((0, 0), "S_Text_0")] := ⟨_, _, rfl, by decide⟩
+  obtain ⟨imp2, c2, he2, hp2⟩ := he2
+  rw [he2] at he
+  simp only [Except.ok.injEq, Prod.mk.injEq] at he
+  obtain ⟨rfl, rfl, rfl⟩ := he
+  obtain ⟨⟨ps, hps, _⟩, hem⟩ := hemit exS0 (fun p hp => nomatch hp)
+  exact ⟨_, _, _, _, _, _, h, hsel2, hcl, he2, hst, rfl, hp, hp2, by rw [hps], hem⟩
+
+/-- … and these are the lines (unoptimised chunk order), for the original and for the selected body. -/
+example :
+    ∃ stmts imp c' stmts' imp' c'',
+      elabE (exEnv "A") "S" {} exE = .ok (stmts, imp, c') ∧
+      elabE (exEnv "A") "S" {} exEsel = .ok (stmts', imp', c'') ∧
+      (Emit.emitScript { optimize := false } (addImp imp exS0).patches [] { name := "S", body := stmts }).toOption =
+        some [.labelDef "S" true, .command "msgbox" ["S_Text_0"], .goto_ "S_2", .blank,
+              .labelDef "S_1" false, .command "release" [], .terminator false, .blank,
+              .labelDef "S_2" false, .goto_ "S_4", .blank,
+              .labelDef "S_3" false, .command "x" [], .goto_ "S_1", .blank,
+              .labelDef "S_4" false, .gotoIfSet "F" "S_3", .goto_ "S_1", .blank] ∧
+      (Emit.emitScript { optimize := false } (addImp imp' exS0).patches [] { name := "S", body := stmts' }).toOption =
+        some [.labelDef "S" true, .command "msgbox" ["S_Text_0"], .goto_ "S_2", .blank,
+              .labelDef "S_1" false, .command "release" [], .terminator false, .blank,
+              .labelDef "S_2" false, .goto_ "S_4", .blank,
+              .labelDef "S_3" false, .command "x" [], .goto_ "S_1", .blank,
+              .labelDef "S_4" false, .gotoIfSet "F" "S_3", .goto_ "S_1", .blank] :=
+  ⟨_, _, _, _, _, _, rfl, rfl, by decide, by decide⟩
+
+/-- `elab_ok_contLast` / `elab_poryswitch_selected_iff` on the example: the selected block elaborates, hence
+obeys the `continue` rule. -/
+example : ContLast exBselA :=
+  elab_ok_contLast (env := exEnv "A") (sn := "S") (c := exCtx) (r := _) rfl
+
+example : ∃ b', selectB (exEnv "A") exB = some b' ∧ ((∃ r, elabE (exEnv "A") "S" {} b' = .ok r) ↔ ContLast b') :=
+  elab_poryswitch_selected_iff (ctxWF_of_empty rfl rfl) (stmts := _) (imp := _) (c' := _) rfl
+
+/-- `elabS_pory` on the poryswitch of the example (`-s V=B`): the table has the three cases (newest first),
+the counters are those after all of them. -/
+example :
+    elabS (exEnv "B") "S" id [] [] false
+        (pory "V"
+          [.brace (tk .IDENT "A") lb
+             [.cmdI (tk .IDENT "msgbox") lp [.str (tk .STRING "a")] [] rp,
+              .while_ (tk .WHILE "while") lp (cond (.flagBare z false "F")) rp lb [.cmd0 (tk .IDENT "x")] rb] rb,
+           .colon (tk .IDENT "B") colon (.cmd0 (tk .IDENT "y")),
+           .brace (tk .IDENT "_") lb [.cmd0 (tk .IDENT "z")] rb]) 0 1 =
+      .ok ([cmdS 3 "y"], {}, 1, 5) := by
+  unfold pory
+  rw [elabS_pory _ _ _ _ _ _ _ _ _ _ _ _ _ _ _ rfl rfl]
+  rfl
+
 end Example
 
 #print axioms elab_poryswitch_selected
+#print axioms emit_ids_irrelevant
+#print axioms compile_poryswitch_selected
 #print axioms elab_poryswitch_selected_fn
 #print axioms elab_poryswitch_selected_iff
 #print axioms elab_ok_contLast
